@@ -107,9 +107,16 @@ public:
 
         m_thread->quit();
 
-        if (!m_thread->wait(3000)) {
-            m_thread->terminate();
-            m_thread->wait();
+        // A delivery that is in progress is finished by the worker, however long its sink takes:
+        // terminating the thread inside a sink would lose that message (and Qt's warning about
+        // it, logged from the dying thread, would block on m_mutex forever). Only a thread that
+        // delivers nothing and still does not stop is terminated.
+        while (!m_thread->wait(3000)) {
+            if (m_delivering.loadAcquire() == 0) {
+                m_thread->terminate();
+                m_thread->wait();
+                break;
+            }
         }
 
         m_thread.clear();
@@ -172,7 +179,9 @@ private:
         void customEvent(QEvent *event) override
         {
             if (event->type() == LogEvent::type()) {
+                m_handler->m_delivering.storeRelease(1);
                 m_handler->processNext();
+                m_handler->m_delivering.storeRelease(0);
             }
         }
 
@@ -185,6 +194,7 @@ private:
     Worker *m_worker = nullptr;
     QMutex m_mutex;
     QAtomicInt m_pendingCount;
+    QAtomicInt m_delivering; // the worker is inside processNext()
     QMutex m_queueMutex;
     QQueue<QSharedPointer<LogMessage>> m_queue;
     QMetaObject::Connection m_aboutToQuitConnection;
